@@ -245,7 +245,10 @@ func runC15(c *c15Case) (v *vcommon.Violation, inconclusive bool) {
 				return fail("incr-effect", "path %s: after %s Get = %v, want %d", pn, c.Op, g, want), false
 			}
 			if c.Prior == "presentttl" {
-				if g.TTL < priorTTL-3 || g.TTL > priorTTL+3 {
+				// Incr re-stores the entry with its remaining life, measured when it read the entry: the expiry may
+				// move by the time the operation itself took (microseconds on an idle machine), not more
+				slack := (r.Ret-r.Inv)/1e6 + 3
+				if g.TTL < priorTTL-slack || g.TTL > priorTTL+slack {
 					return fail("incr-ttl", "path %s: %s changed the ttl from %d to %d", pn, c.Op, priorTTL, g.TTL), false
 				}
 			} else if g.TTL != 0 {
